@@ -180,6 +180,17 @@ def moved_from(f, st):
     return out
 
 
+def released(f, st):
+    """unique_ptr locals whose ownership is given up by st (x.release())"""
+    if st["k"] == "CXXMemberCallExpr" and st["callee"]["name"] == "release":
+        o = f.s(st["obj"])
+        if o is not None and re.match(r"^(const )?std::unique_ptr<", o.get("t", "")):
+            ou = unwrap(f, o)
+            if ou is not None and ou["k"] == "DeclRefExpr":
+                return [("l:" + ou["d"]["name"], "released")]
+    return []
+
+
 def use_after_invalidate(f):
     """forward may-analysis; returns list of (use stmt, path, how used, invalidating stmt, kind)"""
     if f.entry is None:
@@ -222,7 +233,14 @@ def use_after_invalidate(f):
                         src = path(f, f.children(st)[1])
                         if src:
                             alias[ap] = src
-            for p, kind in invalidations(f, st) + moved_from(f, st):
+            # x.get() on a released unique_ptr is a (null) use as well
+            if st["k"] == "CXXMemberCallExpr" and st["callee"]["name"] == "get":
+                o = unwrap(f, f.s(st["obj"]))
+                if o is not None and o["k"] == "DeclRefExpr":
+                    v = "l:" + o["d"]["name"]
+                    if v in inv and inv[v][0] == "released":
+                        findings[(st["id"], v)] = (st, v, ".get() (yields nullptr)", f.stmts.get(inv[v][1]), "released")
+            for p, kind in invalidations(f, st) + moved_from(f, st) + released(f, st):
                 inv[p] = (kind, st["id"])
                 for a, t in alias.items():
                     if t == p:
